@@ -1,11 +1,11 @@
 package main
 
 import (
-	"time"
 	"bytes"
 	"errors"
 	"fmt"
 	"strings"
+	"time"
 
 	pongo2 "github.com/flosch/pongo2/v6"
 )
